@@ -28,7 +28,8 @@ DRIVER = LEAN / ".lake" / "build" / "bin" / "nmdriver"
 TRDRIVER = LEAN / ".lake" / "build" / "bin" / "trdriver"  # definitions regenerated from the Python source (py2lean)
 # request prefixes the translated-source driver answers (lean/TrDriver.lean)
 TR_OPS = ("a1 colname ", "a1 cell ", "a1 range ", "a1 parse ", "a1 coloff ", "a1 colidx ", "items getitem ", "numfmt fracparts ", "numfmt twos ", "addr iterrows ", "addr itercols ",
-          "datefmt fmt ", "datefmt expand ", "dur units ", "d128 pack ", "cache calls ", "tok tokenize ")
+          "datefmt fmt ", "datefmt expand ", "dur units ", "d128 pack ", "cache calls ", "tok tokenize ", "loader load f ",
+          "iwa isiwa ", "iwa decompress ", "iwa framestream ", "cell dec ")
 ALLOWED_AXIOMS = {"propext", "Classical.choice", "Quot.sound"}
 FORBIDDEN = re.compile(
     r"\b(sorry|admit|native_decide|bv_decide|implemented_by|unsafe)\b|^\s*axiom\s|maxHeartbeats\s+0\b"
